@@ -60,6 +60,22 @@ CLAIMED.update({
     ),
 })
 
+CLAIMED.update({
+    "C10": (
+        "Coq proof by induction over operation histories of a per-class state-machine model (lazy k-d tree as oracle) + history correspondence",
+        "18 theorems: for every grid class, every history of point/weight reassignments, queries and selections, the query result is a "
+        "permutation of the brute-force ball specification over the grid's current public points and weights (full strength under the "
+        "`good` configuration; a `_partial` version for any configuration lists exactly which histories are excluded), inf radius = whole "
+        "grid, indices map back, selection by int / NumPy int / slice / index array / mask returns exactly the selected rows with domain or "
+        "lattice carried over; five `_refuted` theorems with concrete witnesses for the defects of the pinned code (each replayed on the "
+        "implementation every run and listed as a known finding). Model tied by random history correspondence evaluated by vm_compute.",
+        "Trusted: Coq kernel+vm_compute; stdlib real axioms (radius_bridge only); k-d tree oracle hypothesis `oracle_ok` (validated "
+        "against scipy cKDTree each run); hand model per class with 7 behaviour flags decided on each run from directed witness histories "
+        "and validated by the random-history correspondence; integer coordinates only (float round-off at ball boundaries out of scope).",
+        "DESIGN.md section 6 C10",
+    ),
+})
+
 NOT_YET = {
     # pid: reason (kept current; a property moves to CLAIMED once its check is green on the unchanged tree)
 }
